@@ -191,7 +191,7 @@ def extra(tier, seed, stats):
 
 def budget(tier):
     if tier == 'quick':
-        return dict(examples=3600, wall=100)
+        return dict(examples=5000, wall=100)
     return dict(examples=90000, wall=1500)
 
 
